@@ -1,4 +1,5 @@
 import NasimModel.Model.Core
+import NasimModel.Proofs.Step
 namespace NASim
 
 def Result.flagCount (r : Result) : Nat := r.connErr.toNat + r.permErr.toNat + r.undefErr.toNat
@@ -47,10 +48,11 @@ theorem perform_gate_indep (n : Net) (s : State) (a : Action) (u v : Rat) (h : g
   split <;> simp_all
 
 /-- monotonicity of a single row under hostPerform -/
-theorem hostPerform_mono (r : Row) (a : Action) (hg : a.grant ≤ 2) (hg1 : 1 ≤ a.grant) (hr : r.access ≤ 2) :
+theorem hostPerform_mono (r : Row) (a : Action) (hg : ActOk a) (hr : r.access ≤ 2) :
     let r' := (hostPerform r a).1
     r.access ≤ r'.access ∧ r'.access ≤ 2 ∧ (r.comp = true → r'.comp = true) ∧ r'.reach = r.reach ∧ r'.disc = r.disc
       ∧ r'.addr = r.addr ∧ r'.value = r.value ∧ r'.dvalue = r.dvalue ∧ r'.os = r.os ∧ r'.svc = r.svc ∧ r'.proc = r.proc := by
+  unfold ActOk at hg
   unfold hostPerform raiseAccess
   repeat' split
   all_goals simp_all
